@@ -32,12 +32,12 @@ type c05Case struct {
 	// judged (one reply per command, markers answered, bait never executed)
 	State    string `json:"state"`
 	ErrAfter int    `json:"err_after,omitempty"`
-	Limit   int64  `json:"limit,omitempty"`
-	MaxLine int    `json:"max_line"`
-	Mode    int    `json:"mode"` // 0 SMTP, 1 LMTP plain, 2 LMTP per-recipient
-	NRcpt   int    `json:"nrcpt"`
-	Cuts    []int  `json:"cuts,omitempty"` // segmentation of the BDAT part of the stream
-	Reads   []int  `json:"reads,omitempty"`
+	Limit    int64  `json:"limit,omitempty"`
+	MaxLine  int    `json:"max_line"`
+	Mode     int    `json:"mode"` // 0 SMTP, 1 LMTP plain, 2 LMTP per-recipient
+	NRcpt    int    `json:"nrcpt"`
+	Cuts     []int  `json:"cuts,omitempty"` // segmentation of the BDAT part of the stream
+	Reads    []int  `json:"reads,omitempty"`
 	// GateStart: the delivery goroutine starts only when the harness lets it
 	// (released whenever the command loop waits for it, and at the end)
 	GateStart bool `json:"gate_start,omitempty"`
